@@ -10,6 +10,7 @@ package core
 type DevStep struct {
 	D int    `json:"d"`
 	E string `json:"e,omitempty"` // "", eof, ueof, err, weof, closed
+	J int64  `json:"j,omitempty"` // this Read takes J milliseconds of simulated time (clock seam) before it returns
 }
 
 // Dev is a device: a byte stream (explicit hex prefix, then a deterministic
@@ -28,6 +29,7 @@ type ReadRec struct {
 	Gave  int    `json:"g"`
 	Err   string `json:"e,omitempty"`
 	Task  int    `json:"t,omitempty"`
+	J     int64  `json:"took_sim_ms,omitempty"` // simulated milliseconds this Read took (clock seam)
 }
 
 func Mix(z uint64) uint64 {
